@@ -5,6 +5,7 @@ package fees
 
 import (
 	"encoding/binary"
+	"math/big"
 	"sync"
 
 	"github.com/ava-labs/avalanchego/utils/math"
@@ -223,13 +224,7 @@ func computeNextPriceWindow(
 	nextPrice := previousPrice
 	if total > target {
 		// If the parent block used more units than its target, the baseFee should increase.
-		delta := total - target
-		x := previousPrice * delta
-		y := x / target
-		baseDelta := y / changeDenom
-		if baseDelta < 1 {
-			baseDelta = 1
-		}
+		baseDelta := priceDelta(previousPrice, total-target, target, changeDenom, 1)
 		n, over := math.Add(nextPrice, baseDelta)
 		if over != nil {
 			nextPrice = consts.MaxUint64
@@ -238,22 +233,16 @@ func computeNextPriceWindow(
 		}
 	} else if total < target {
 		// Otherwise if the parent block used less units than its target, the baseFee should decrease.
-		delta := target - total
-		x := previousPrice * delta
-		y := x / target
-		baseDelta := y / changeDenom
-		if baseDelta < 1 {
-			baseDelta = 1
-		}
-
 		// If [roll] is greater than [rollupWindow], apply the state transition to the base fee to account
 		// for the interval during which no blocks were produced.
 		// We use roll/rollupWindow, so that the transition is applied for every [rollupWindow] seconds
 		// that has elapsed between the parent and this block.
+		multiplier := uint64(1)
 		if since > window.WindowSize {
 			// Note: roll/rollupWindow must be greater than 1 since we've checked that roll > rollupWindow
-			baseDelta *= since / window.WindowSize
+			multiplier = since / window.WindowSize
 		}
+		baseDelta := priceDelta(previousPrice, target-total, target, changeDenom, multiplier)
 		n, under := math.Sub(nextPrice, baseDelta)
 		if under != nil {
 			nextPrice = 0
@@ -265,6 +254,23 @@ func computeNextPriceWindow(
 		nextPrice = minPrice
 	}
 	return nextPrice, newRollupWindow
+}
+
+// priceDelta returns max(1, (price*delta/target)/changeDenom) * multiplier computed
+// without intermediate overflow, saturating at the maximum uint64 value.
+func priceDelta(price, delta, target, changeDenom, multiplier uint64) uint64 {
+	x := new(big.Int).SetUint64(price)
+	x.Mul(x, new(big.Int).SetUint64(delta))
+	x.Div(x, new(big.Int).SetUint64(target))
+	x.Div(x, new(big.Int).SetUint64(changeDenom))
+	if x.Sign() == 0 {
+		x.SetUint64(1)
+	}
+	x.Mul(x, new(big.Int).SetUint64(multiplier))
+	if !x.IsUint64() {
+		return consts.MaxUint64
+	}
+	return x.Uint64()
 }
 
 type Rules interface {
